@@ -32,6 +32,7 @@ PROP = {
         H("c03_reader_data_then_hb", _rd, "real Reader: one arbitrary DATA then HEARTBEAT(first,last,count,final): answered iff required, base <= lowest unknown, every requested SN unknown and inside [first,last], lowest missing requested", "SNs 1..W, counts 1..4", tier="thorough", timeout=2400),
         H("c03_reader_gap_then_hb", _rd, "same after one arbitrary GAP (start, base, 2-bit bitmap)", "SNs 1..W", tier="thorough", timeout=2400),
         H("c03_reader_hb_then_hb", _rd, "two HEARTBEATs: both answers truthful, base and count monotone, duplicate count ignored", "SNs 1..W, counts 1..4", tier="thorough", timeout=2400),
+        H("c03_reader_partial_fragment_hb", _rd, "real Reader: SN 1 arrived only in part (one of three fragments, chosen symbolically), SNs 2..3 missing; HEARTBEAT(1..3): ACKNACK base <= 1, {2,3} requested, NACKFRAG for SN 1 names exactly the two missing fragments, counts differ", "3 fragments of 4 bytes", tier="thorough", timeout=2400),
         H("c03_reader_hb_fresh", _rd, "fresh matched writer, HEARTBEAT(first,last,final) symbolic: answered iff required, base <= first, requested SNs inside [first,last], lowest missing requested", "first in 1..4, last in first-1..4"),
     ],
     "bounds": {"unwind": "7 (Reader object) / 10-11 (kernels)", "sn_window": "4 (quick) / 5 (thorough)", "CAP": "4 / 6", "number_set_spans": "concrete grid {2,32,33,255,256,258,300}, bases {1, 5, 7, 2^31-2, 2^32-1}", "vec_growth": "Vec::push grows to a concrete capacity of 16; vec![x;n] n <= 9"},
